@@ -94,10 +94,7 @@ func handleConnect(c *Client, e Event) {
 
 	time.Sleep(2 * time.Second)
 
-	c.mu.RLock()
-	server := c.server()
-	c.mu.RUnlock()
-	c.RunHandlers(&Event{Command: CONNECTED, Params: []string{server}})
+	c.RunHandlers(&Event{Command: CONNECTED, Params: []string{c.Server()}})
 }
 
 // nickCollisionHandler helps prevent the client from having conflicting
